@@ -1,6 +1,6 @@
 (* C01 — Every program the library produces is well-typed for its grammar.
    Only statements closed by [exact]; Print Assumptions; non-vacuity example. *)
-From GE Require Import Base Tape Grammar WellTyped Synth Sat SynthFrame SynthSat Linear MapProofs ProgRefuted.
+From GE Require Import Base Tape Grammar WellTyped Synth Sat SynthFrame SynthSat Linear Stack MapProofs StackProofs ProgRefuted.
 Open Scope Z_scope.
 
 (* for EVERY class hierarchy whose annotations refine a base type they can produce values of
@@ -65,6 +65,19 @@ Theorem C01_progressive_zero_weight_refuted : forall fuel ctx st v st',
 Proof. exact progressive_never_returns. Qed.
 Print Assumptions C01_progressive_zero_weight_refuted.
 
+(* the stack representation: for every hierarchy the library accepts, every iteration order, every codon list, failure limit
+   and fuel, a program the stack machine returns is a well-typed program of the start symbol.  (The machine is the model of
+   create_tree_using_stacks for hierarchies without metahandler-annotated and string fields; the statement needs no such
+   restriction.)  Rests on: every value on the stack of a type is well typed at it, also after an attempt that raised
+   IndexError half-way through its pops; and the registration walk is closed under field types (Proofs/RegFields.v), so every
+   class among the machine's stack types is a registered node. *)
+Theorem C01_stack_mapped_programs_well_typed : forall d order g,
+  extract d order = Ok g ->
+  forall fuel limit dna v, stack_map fuel g limit dna = Ok v ->
+  WT (g_decl g) (g_reg g) false (TSym (d_start (g_decl g))) v.
+Proof. exact stack_mapped_well_typed. Qed.
+Print Assumptions C01_stack_mapped_programs_well_typed.
+
 (* ---- non-vacuity: E -> Lit(int, bool) | Pair(tuple[E, str]) | Many(list[E]) | Alt(Union[int, E]) ---- *)
 Definition ex1 : decl :=
   mkDecl [ mkCls None true [] None;
@@ -84,4 +97,20 @@ Proof.
   destruct (extract ex1 id_order) as [g|] eqn:E; [|vm_compute in E; discriminate].
   exists g. vm_compute in E. inversion E; subst. eexists. eexists. split; [reflexivity|].
   vm_compute. split; [reflexivity | discriminate].
+Qed.
+
+(* the stack machine on E -> Lit(int) | Pair(E, E) with start symbol Pair: two ints, two Lits, two promotions, one Pair *)
+Definition ex1s : decl :=
+  mkDecl [ mkCls None true [] None;
+           mkCls (Some 0%nat) false [TBase BInt] None;
+           mkCls (Some 0%nat) false [TSym 0%nat; TSym 0%nat] None ]
+         [0; 1; 2]%nat 2%nat false.
+
+Example C01_stack_nonvacuous :
+  exists g, extract ex1s id_order = Ok g /\ types_registered g (all_stack_types g) = true /\
+    stack_map 300 g 100 [5; 200000; 10007; 100000; 0; 0; 200000; 10009; 100000; 0; 0; 300000] =
+      Ok (VNode 2 [VNode 1 [VInt 9]; VNode 1 [VInt 7]]).
+Proof.
+  destruct (extract ex1s id_order) as [g|] eqn:E; [|vm_compute in E; discriminate].
+  exists g. vm_compute in E. inversion E; subst. repeat split; vm_compute; reflexivity.
 Qed.
